@@ -4,7 +4,13 @@
 #  demo passes unchanged; with patch: builds, 66 tests pass, demo fails.  Restores the tree.
 set -u
 S=$(realpath "$1"); W=/tmp/vs
+# the scratch worktree is (re)created on demand and may be removed at any time: git -C /repo worktree remove --force /tmp/vs
+if [ ! -d $W ]; then
+  git -C /repo worktree add --detach $W HEAD -q || exit 2
+  (cd $W && cmake -G Ninja -B _build . >/dev/null 2>&1)
+fi
 cd $W || exit 2
+git checkout -q --detach $(git -C /repo rev-parse HEAD) 2>/dev/null
 git checkout -q -- . ; git clean -fdq -e _build
 cmake --build _build -- -j8 -k 0 >/dev/null 2>&1
 echo "== demo on unchanged tree"; (cd $S && timeout 600 bash ./run-demo.sh $W >/tmp/vs-demo0.log 2>&1); r0=$?
